@@ -184,6 +184,8 @@ def index_form(d, bv: tuple):
     """(domain, element) with sequence iteration rewritten to index iteration."""
     if isinstance(d, tuple) and d and d[0] == "iter":
         T = d[1]
+        if isinstance(T, tuple) and T and T[0] == "dom":
+            return index_form(T[1], bv)      # iterating [v for v in D] / a range bound to a name iterates D
         return ("range", ZERO, length_of(T)), subscript(T, bv)
     if isinstance(d, tuple) and d and d[0] == "dom":
         return index_form(d[1], bv)
@@ -681,9 +683,28 @@ class Translator:
                 return atom_poly(("seq", elem, dom, lvl))  # list(range(..)) = [v for v in range(..)]
             inner = self.tr(args[0])
             ia = single_atom(inner)
+            if name == "list" and ia is not None and ia[0] == "seq":
+                return inner       # list(<generator / comprehension>) is that list
             if ia is not None and ia[0] == "call" and ia[1] == ".keys" and len(ia[2]) == 1:
                 inner = ia[2][0]  # list(d.keys()) = list(d)
             return atom_poly(("call", name, (inner,)))
+        if name in ("max", "min") and len(args) >= 2 and not kw and not any(isinstance(a_, ast.Starred) for a_ in args):
+            return mk_minmax(name, tuple(self.tr(a_) for a_ in args))
+        if name == "range" and 1 <= len(args) <= 2 and not kw:
+            # a range used as a VALUE (handed to product(), len(), indexing) is the list of its elements
+            lvl = self._level()
+            dom, elem, lvl = self.domain_elem(n, lvl)
+            return atom_poly(("seq", elem, dom, lvl))
+        if name == "map" and len(args) == 2 and not kw and isinstance(args[0], (ast.Name, ast.Attribute, ast.Lambda)):
+            # map(f, X) = (f(x) for x in X)
+            if isinstance(args[0], ast.Lambda) and len(args[0].args.args) == 1:
+                var = args[0].args.args[0].arg
+                elt = args[0].body
+            else:
+                var = "__map_v"
+                elt = ast.Call(func=args[0], args=[ast.Name(id=var, ctx=ast.Load())], keywords=[])
+            g = ast.GeneratorExp(elt=elt, generators=[ast.comprehension(target=ast.Name(id=var, ctx=ast.Store()), iter=args[1], ifs=[], is_async=0)])
+            return self.tr(ast.fix_missing_locations(ast.copy_location(g, n)))
         if name == "dict.fromkeys" and len(args) in (1, 2) and not kw:
             # dict.fromkeys(K, v) = {k: v for k in K}
             lvl = self._level()
@@ -704,6 +725,14 @@ class Translator:
                 if body is not None and body[0] == "tuple" and len(body[1]) == 2:
                     # dict((k, v) for ...) = {k: v for ...}
                     return atom_poly(("dictacc", (("set", body[1][0], body[1][1], ((dom, inner[3], conds),)),)))
+        if isinstance(n.func, ast.Attribute) and n.func.attr in ("items", "values") and not args and not kw:
+            # d.items() / d.values() as a VALUE: the list of (key, d[key]) / of d[key], in key order
+            lvl = self._level()
+            T = self.tr(n.func.value)
+            lvl = max(lvl, max_level(T) + 1)
+            dom, elem = index_form((n.func.attr, T), sym(f"#{lvl}"))
+            if isinstance(dom, tuple) and dom and dom[0] == "range":
+                return atom_poly(("seq", elem, dom, lvl))
         if isinstance(n.func, ast.Attribute) and n.func.attr in ("nodes", "edges") and not args and not kw:
             return self.tr(n.func)      # networkx: G.nodes() / G.edges() are the views G.nodes / G.edges
         targs = tuple(self.tr(a) for a in args)
@@ -859,6 +888,12 @@ def mk_cmp(op: str, a: tuple, b: tuple) -> tuple:
         op, a, b = "Lt", b, a
     elif op == "GtE":
         op, a, b = "LtE", b, a
+    if op in ("In", "NotIn"):
+        # membership does not depend on the container being a list, tuple, set or sorted copy of the same elements
+        bb = single_atom(b)
+        while bb is not None and bb[0] == "call" and bb[1] in ("list", "tuple", "set", "frozenset", "sorted") and len(bb[2]) == 1:
+            b = bb[2][0]
+            bb = single_atom(b)
     if op in ("Eq", "NotEq", "Is", "IsNot") and _key(b) < _key(a):
         a, b = b, a
     return atom_poly(("cmp", op, a, b))
@@ -1007,6 +1042,24 @@ def mk_bool(op: str, values) -> tuple:
     return bool_canon(atom_poly(("bool", op, values)))
 
 
+def mk_minmax(name: str, args) -> tuple:
+    """max / min of terms: commutative, nested calls of the same kind flattened, duplicates dropped"""
+    flat = []
+    for v in args:
+        av = single_atom(v)
+        if av is not None and av[0] == "call" and av[1] == name and all(isinstance(z, tuple) and z and z[0] == "P" for z in av[2]):
+            flat.extend(av[2])
+        else:
+            flat.append(v)
+    uniq = []
+    for v in sorted(flat, key=_key):
+        if v not in uniq:
+            uniq.append(v)
+    if len(uniq) == 1:
+        return uniq[0]
+    return atom_poly(("call", name, tuple(uniq)))
+
+
 def mk_ifexp(c: tuple, a: tuple, b: tuple) -> tuple:
     """a if c else b, with the condition oriented canonically: `x if not c else y` = `y if c else x`."""
     if a == b:
@@ -1014,6 +1067,13 @@ def mk_ifexp(c: tuple, a: tuple, b: tuple) -> tuple:
     ca = single_atom(c)
     if ca is not None and ca[0] == "boolconst":
         return a if ca[1] else b
+    # a if a > b else b  =  max(a, b);   a if a < b else b  =  min(a, b)
+    if ca is not None and ca[0] == "cmp" and ca[1] in ("Lt", "LtE"):
+        x, y = ca[2], ca[3]          # condition: x < y  (or x <= y)
+        if a == y and b == x:
+            return mk_minmax("max", (x, y))
+        if a == x and b == y:
+            return mk_minmax("min", (x, y))
     nc = mk_not(c)
     _, sign = _literal(c)
     ca = single_atom(c)
@@ -1238,6 +1298,30 @@ def canon_atom(at: tuple, depth: int) -> tuple:
                 # D[k] = a ... D[k] = b over the same iteration: the later store wins
                 ents = [e for e in ents if not (e[0] == "set" and e[1] == e_new[1] and e[3] == e_new[3])]
             ents.append(e_new)
+        # `D[k] = D[k] * c`  is  `D[k] *= c`;  `D[k] = D[k] + c`  is  `D[k] += c`   (D = the table's own previous content)
+        base_t = at[2] if len(at) > 2 else None
+        if base_t is not None:
+            def _rescale(e):
+                kind, key, val, ctx = e
+                if kind != "set":
+                    return e
+                old = subscript(base_t, key)
+                oa = single_atom(old)
+                if oa is None:
+                    return e
+                sm = single_mono(val)
+                if sm is not None:
+                    mono, coef = sm
+                    exps = dict(mono)
+                    if exps.get(oa) == ONE or exps.get(oa) == const(1):
+                        rest = P({tuple(sorted(((a_, e_) for a_, e_ in mono if a_ != oa), key=_key)): coef})
+                        if oa not in {x for x in _atoms_in(rest)}:
+                            return ("scale", key, rest, ctx)
+                diff = sub(val, old)
+                if oa not in {x for x in _atoms_in(diff)}:
+                    return ("inc", key, diff, ctx)
+                return e
+            ents = [_rescale(e) for e in ents]
         # `if k not in D: D[k] = 0` before `D[k] += v` is the default of the increment form D[k] = D.get(k, 0) + v
         def _is_default_init(e):
             kind, key, val, ctx = e
@@ -1263,7 +1347,27 @@ def canon_atom(at: tuple, depth: int) -> tuple:
         return mk_not(canon(at[1], depth))
     if at[0] == "ifexp" and len(at) == 4:
         return mk_ifexp(canon(at[1], depth), canon(at[2], depth), canon(at[3], depth))
+    if at[0] == "call" and at[1] in ("max", "min") and len(at) == 3 and len(at[2]) >= 2 and all(isinstance(z, tuple) and z and z[0] == "P" for z in at[2]):
+        return mk_minmax(at[1], tuple(canon(z, depth) for z in at[2]))
     return atom_poly((at[0],) + tuple(canon(y, depth) for y in at[1:]))
+
+
+def _atoms_in(p):
+    """all atoms (tuples that are atom keys of monomials) occurring anywhere in a term"""
+    out = []
+
+    def rec(x):
+        if isinstance(x, tuple) and x and x[0] == "P":
+            for m, c in x[1]:
+                for at, e in m:
+                    out.append(at)
+                    rec(at)
+                    rec(e)
+        elif isinstance(x, tuple):
+            for y in x:
+                rec(y)
+    rec(p)
+    return out
 
 
 def translate(expr: ast.AST, env=None, call_hook=None) -> tuple:
